@@ -299,5 +299,9 @@ def run(ctx):
     # ---------------------------------------------------------------- C02.ARGS
     from ..rules_common import check_call_arguments
     check_call_arguments(ctx, "C02.ARGS", "C02")
+    from ..rules_common import check_effect_tables
+    check_effect_tables(ctx, "C02")
+    from ..rules_common import check_presence_tests, ARG_SCOPE
+    check_presence_tests(ctx, "C02.PRESENCE", classes=ARG_SCOPE.get("C02", []))
 
 
